@@ -63,6 +63,12 @@ MUTANTS = [
   "  options.verify_checksums = vset->options->paranoid_checks;", "  options.verify_checksums = 0;"),
  ("group_followers_always_ok", "C12", "src/db_impl.c",
   "      ready->status = rc;\n      ready->done = 1;", "      ready->status = LDB_OK;\n      ready->done = 1;"),
+ ("newer_manifest_kept", "C13", "src/db_impl.c",
+  "          keep = (number == db->versions->manifest_file_number);", "          keep = (number >= db->versions->manifest_file_number);"),
+ ("manifest_number_not_redrawn", "C13", "src/db_impl.c",
+  "      if (logs.items[i] == db->versions->manifest_file_number) {", "      if (logs.items[i] == db->versions->manifest_file_number && i < 0) {"),
+ ("logs_kept_by_logfile_number", "C13", "src/db_impl.c",
+  "          keep = ((number >= db->versions->log_number) ||", "          keep = ((number >= db->logfile_number) ||"),
  ("flush_inside_compaction_pushed_down", "C14", "src/db_impl.c",
   "  if (!in_compaction) {\n    base = db->versions->current;", "  if (in_compaction || !in_compaction) {\n    base = db->versions->current;"),
  ("get_ignores_immutable_memtable", "C08", "src/db_impl.c",
